@@ -60,6 +60,9 @@ STREAMS = {
     "options-star": b"OPTIONS * HTTP/1.1\r\nHost: x\r\n\r\n",
     "connect": b"CONNECT a:80 HTTP/1.1\r\nHost: a\r\n\r\n",
     "deep": b"".join(_req(f"/r{i}") for i in range(34)),
+    # a pipeline that fills the request queue while the last request's body is still arriving
+    "deep-body-1": b"".join(_req(f"/r{i}") for i in range(31)) + _req("/r31", "POST", b"Content-Length: 30\r\n", b"0123456789abcdefghij"),
+    "deep-body-2": b"klmnopqrst" + _req("/r32"),
 }
 BEHAVIOURS = ["ok", "raise", "http-exc", "timeout-exc", "ignore-body", "read-body", "stream", "none", "sleep"]
 
@@ -84,7 +87,8 @@ def _cut_candidates(data):
     return sorted(m for m in marks if 0 <= m <= n)
 
 
-def connection(ctx, nsteps=2, streams=None, behaviours=None, sym_hole=False, disconnect=True, first_stream=None):
+def connection(ctx, nsteps=2, streams=None, behaviours=None, sym_hole=False, disconnect=True, first_stream=None,
+               read_bufsize=None):
     from aiohttp import web
     from refs import ref_http
 
@@ -92,7 +96,7 @@ def connection(ctx, nsteps=2, streams=None, behaviours=None, sym_hole=False, dis
 
     logging.disable(logging.CRITICAL)
     loop = install(VLoop())
-    names = list(streams or STREAMS)
+    names = list(streams or [n for n in STREAMS if not n.startswith("deep-body")])
     behs = list(behaviours or BEHAVIOURS)
     handled = []  # (path, behaviour)
     beh_for = {}
@@ -101,7 +105,7 @@ def connection(ctx, nsteps=2, streams=None, behaviours=None, sym_hole=False, dis
         idx = len(handled)
         b = beh_for.get(idx)
         if b is None:
-            b = ctx.pick(f"beh{idx}", behs) if idx < 3 else "ok"
+            b = ctx.pick(f"beh{idx}", behs) if idx < 3 else ("read-body" if request.method == "POST" else "ok")
             beh_for[idx] = b
         tag = request.path.strip("/") or "root"
         handled.append((tag, b))
@@ -127,7 +131,8 @@ def connection(ctx, nsteps=2, streams=None, behaviours=None, sym_hole=False, dis
 
     app = web.Application()
     app.router.add_route("*", "/{p:.*}", handler)
-    runner = web.AppRunner(app, handle_signals=False, access_log=None, keepalive_timeout=75)
+    kw = {} if read_bufsize is None else {"read_bufsize": read_bufsize}
+    runner = web.AppRunner(app, handle_signals=False, access_log=None, keepalive_timeout=75, **kw)
     t = asyncio.Task(runner.setup(), loop=loop)
     loop.run_ready()
     proto = runner.server()
@@ -144,11 +149,20 @@ def connection(ctx, nsteps=2, streams=None, behaviours=None, sym_hole=False, dis
             info["out"] = bytes(tr.out).decode("latin1")[:600]
         return False, "inv:" + key, info
 
+    backlog = {"b": b""}  # bytes the kernel holds while the transport is paused
+
     def feed(piece):
-        try:
-            proto.data_received(piece)
-        except Exception as e:  # noqa: BLE001
-            return f"exception-escapes-data_received:{type(e).__name__}"
+        """the transport delivers what it holds unless reading is paused (as a real transport does)"""
+        backlog["b"] = backlog["b"] + piece
+        for _ in range(50):
+            if not len(backlog["b"]) or tr.paused or tr.closed:
+                break
+            data, backlog["b"] = backlog["b"], b""
+            try:
+                proto.data_received(data)
+            except Exception as e:  # noqa: BLE001
+                return f"exception-escapes-data_received:{type(e).__name__}"
+            loop.run_ready()
         return None
 
     lost = False
@@ -176,6 +190,10 @@ def connection(ctx, nsteps=2, streams=None, behaviours=None, sym_hole=False, dis
                 return fail("message-queue-above-cap", n=len(proto._messages))
         # let handlers that sleep finish
         loop.advance(6)
+        bad = feed(b"")
+        if bad:
+            return fail(bad)
+        loop.run_ready()
         if loop.exc:
             return fail("loop-exception-handler-called", exc=str(loop.exc[0].get("exception")))
         if disconnect and step == nsteps - 1 and ctx.flag("peer_disconnects"):
@@ -186,6 +204,15 @@ def connection(ctx, nsteps=2, streams=None, behaviours=None, sym_hole=False, dis
             if loop.exc:
                 return fail("loop-exception-handler-called-after-disconnect", exc=str(loop.exc[0].get("exception")))
     loop.run_ready()
+    if len(backlog["b"]) and not tr.closed and not lost:
+        bad = feed(b"")
+        if bad:
+            return fail(bad)
+        loop.advance(6)
+        feed(b"")
+        if len(backlog["b"]) and tr.paused and not tr.closed:
+            return fail("input-held-back-forever:transport-left-paused", held=len(backlog["b"]),
+                        queued=len(proto._messages or ()))
     # ---- judge the transcript
     out = tr.out
     if isinstance(fed, core.SSeq) or isinstance(out, core.SSeq):
@@ -265,7 +292,7 @@ def jobs(tier):
     quick = tier == "quick"
     lim = {"time_limit": 110 if quick else 1800}
     out = []
-    names = list(STREAMS)
+    names = [n for n in STREAMS if not n.startswith("deep-body")]
     for n in names:
         out.append(dict(name=f"one-{n}", func="connection", params=dict(nsteps=1, streams=[n]), limits=lim))
     # two-step histories: first stream fixed per job, second solver-chosen from a core alphabet
@@ -275,6 +302,14 @@ def jobs(tier):
                         params=dict(nsteps=2, first_stream=n, streams=core2,
                                     behaviours=["ok", "raise", "ignore-body", "stream"], disconnect=False),
                         limits=lim))
+    # both pause reasons at once: queue at its cap while the last request's body trips the read buffer
+    out.append(dict(name="flow-deep-body", func="connection",
+                    params=dict(nsteps=2, first_stream="deep-body-1", streams=["deep-body-2"],
+                                behaviours=["ok", "stream"], disconnect=False, read_bufsize=4), limits=lim))
+    for n in (["post-cl", "post-chunked", "pipe3"] if quick else ["post-cl", "post-chunked", "pipe3", "expect", "deep", "upgrade-declined-tail"]):
+        out.append(dict(name=f"flow-{n}", func="connection",
+                        params=dict(nsteps=1, streams=[n], read_bufsize=1,
+                                    behaviours=["ok", "ignore-body", "read-body", "stream", "raise"]), limits=lim))
     out.append(dict(name="hole-host", func="connection", params=dict(nsteps=1, streams=["get1", "post-cl"],
                                                                       behaviours=["ok"], sym_hole=True), limits=lim))
     return out
